@@ -11,6 +11,7 @@ Oracle: a fired fault gives DataAccessError / OSError; other names' files are
 unchanged; after an interruption the reader finds old, new, a prefix of new
 (uncompressed, as-is) or an error.
 """
+import atexit
 import contextlib
 import io
 import json
@@ -325,7 +326,7 @@ def http_part(R, quick):
     rng = R.rng
     known = {f["id"] for f in R.findings}
     behs = [("status", 500), ("status", 404), ("status", 503), "drop", "cut-body", "cut-chunked", "bad-gzip",
-            "short", "long", "ignore-range"]
+            "short", "long", "ignore-range", ("status", 403), ("status", 401), ("status", 410)]
     reqs, pend = [], []
     # plain
     root = os.path.join(R.tmp, "hp")
@@ -365,6 +366,22 @@ def http_part(R, quick):
         legacy = i % 2 == 1
         if legacy:
             h14.split_legacy(os.path.join(ds, "1mm"), hl)
+        stale = (not legacy) and i % 4 == 0
+        if stale:
+            # an older generation of the same shards left behind as .index/.data pairs (other voxels):
+            # a failure on the .shard objects must never make the reader fall back to them
+            old = os.path.join(R.tmp, f"hs{i}-old")
+            w0 = ShardedFileAccessor(old)
+            w0.info = info
+            for c in coords:
+                w0.store_chunk(bytes([200 + (c[0] + c[2]) // 64]) * 9, "1mm", tuple(c))
+            with contextlib.redirect_stdout(io.StringIO()):
+                w0.close()
+            atexit.unregister(w0.close)
+            h14.split_legacy(os.path.join(old, "1mm"), hl)
+            for fn in os.listdir(os.path.join(old, "1mm")):
+                shutil.copy(os.path.join(old, "1mm", fn), os.path.join(ds, "1mm", fn))
+            shutil.rmtree(old)
         spec = sb.ShardSpec(triple[1], triple[2], preshift_bits=triple[0])
         vspec = sb.ShardVolumeSpec([64, 64, 64], size)
         rw = sb.CMCReadWrite(spec)
@@ -374,6 +391,7 @@ def http_part(R, quick):
             sc = [b(s.url), b(root), False, True]
             url = s.url + "/ds"
             co = coords[i % 4]
+            R.count("http:sharded:dataset:" + ("legacy" if legacy else "shard+stale-legacy-pair" if stale else "shard"))
             with np.errstate(all="ignore"):
                 cmc = int(vspec.get_cmc(co))
                 skey = rw.get_shard_key(np.uint64(cmc))
@@ -389,12 +407,16 @@ def http_part(R, quick):
                             {"impl": h12._short(good)})
             for k in range(nreq):
                 for beh in behs:
+                    if stale and beh == ("status", 404):
+                        # a 404 on the .shard object legitimately means "look for the legacy pair": with a
+                        # stale pair on the server the fallback is the specified behaviour, not a failure
+                        continue
                     script = ["normal"] * k + [beh]
                     acc2 = accessor.get_accessor_for_url(url)
                     site.reset(script)
                     out = h14.run_impl(lambda: acc2.fetch_chunk("1mm", tuple(co)))
                     case = {"accessor": "sharded-http", "triple": list(triple), "legacy": legacy, "chunk": co,
-                            "fault_at": k, "behaviour": str(beh)}
+                            "fault_at": k, "behaviour": str(beh), "stale_legacy_pair": stale}
                     R.case(case, nontrivial=True)
                     R.count(f"http:sharded:{beh if isinstance(beh, str) else beh[1]}:"
                             f"{out[0] if out[0] != 'Crash' else out[1]}")
@@ -402,6 +424,10 @@ def http_part(R, quick):
                                               hl, cmc, wloc]))
                     pend.append((case, out))
                     if out in (["IOErr"], ["AccessErr"]) or out == good:
+                        continue
+                    if out[0] == "ok":
+                        R.violation("HTTP failure during a sharded fetch returned normally with other bytes than the "
+                                    "stored chunk", case, {"impl": h12._short(out), "stored": h12._short(good)})
                         continue
                     R.violation("HTTP failure during a sharded fetch surfaced as something else than a data-access / "
                                 "I/O error", case, {"impl": h12._short(out)})
@@ -605,6 +631,70 @@ def spool_vanish_part(R, quick):
             R.violation("a vanished write-buffer file surfaced as an unrelated exception", case, {"exception": res})
 
 
+def sharded_close_part(R, quick):
+    """ShardedFileAccessor.close() with every primitive call of the close failing in turn, followed by a
+    SECOND close() without any fault (an explicit retry, the per-scale close of compute_dyadic_scales, or
+    the atexit hook the accessor registers itself).  Oracle: the failing close is an I/O / data-access
+    error; the second close never returns normally unless every stored chunk is then readable."""
+    from neuroglancer_scripts.sharded_file_accessor import ShardedFileAccessor
+    root = os.path.join(R.tmp, "shclose")
+    coords = [(x, x + 64, y, y + 64, 0, 64) for x in (0, 64) for y in (0, 64)]
+
+    def build(strategy, triple):
+        shutil.rmtree(root, ignore_errors=True)
+        ds = os.path.join(root, "ds")
+        info = h14.sharded_info(triple, "raw", "raw", [128, 128, 64])
+        w = ShardedFileAccessor(ds, strategy=strategy)
+        w.info = info
+        for c in coords:
+            w.store_chunk(bytes([c[0] + c[2] + 1]) * 9, "1mm", c)
+        return w, info, ds
+
+    def close_outcome(w):
+        with contextlib.redirect_stdout(io.StringIO()):
+            try:
+                w.close()
+                return ["ok"]
+            except Exception as e:  # noqa: BLE001
+                return classify_exception(e)
+
+    for strategy in ("in memory", "on disk"):
+        for triple in ([(0, 1, 1)] if quick else [(0, 1, 1), (0, 0, 0), (1, 1, 1), (0, 2, 0)]):
+            w, info, ds = build(strategy, triple)
+            with faultfs.FaultFS(root) as f0:
+                close_outcome(w)
+            atexit.unregister(w.close)
+            events = list(f0.events)
+            for k in range(len(events)):
+                for en in (["EIO", "ENOSPC"] if quick else ERRNOS):
+                    w, info, ds = build(strategy, triple)
+                    with faultfs.FaultFS(root, fault=(k, en)) as ffs:
+                        o1 = close_outcome(w)
+                    o2 = close_outcome(w)
+                    atexit.unregister(w.close)
+                    case = {"accessor": "sharded-file", "op": "close, then close again", "strategy": strategy,
+                            "triple": list(triple), "fault": [k, events[k][0], os.path.basename(events[k][1]), en]}
+                    R.case(case, nontrivial=ffs.fired)
+                    R.count(f"sh-close:{events[k][0]}:first={o1[0]}:second={o2[0]}")
+                    if ffs.fired and o1 not in (["IOErr"], ["AccessErr"]):
+                        R.violation("failing primitive during ShardedFileAccessor.close() not reported as an I/O error",
+                                    case, {"impl": o1})
+                    if o2 == ["ok"]:
+                        with open(os.path.join(ds, "info"), "w") as fh:
+                            json.dump(info, fh)
+                        rd = ShardedFileAccessor(ds)
+                        bad = []
+                        for c in coords:
+                            got = h14.run_impl(lambda: rd.fetch_chunk("1mm", c))
+                            if got != ["ok", bytes([c[0] + c[2] + 1]) * 9]:
+                                bad.append([list(c), h12._short(got)])
+                        atexit.unregister(rd.close)
+                        if bad:
+                            R.violation("close() returned normally after an earlier close() had failed, but stored "
+                                        "chunks are not readable (silently dropped)", case, {"unreadable": bad[:3]})
+    shutil.rmtree(root, ignore_errors=True)
+
+
 def run(R):
     R.rule = RULE
     quick = R.tier == "quick"
@@ -615,6 +705,7 @@ def run(R):
     R.notes.append("an interrupted write leaves a prefix of the final file: classes empty, 1 byte, half")
     file_accessor_part(R, quick)
     sharded_file_part(R, quick)
+    sharded_close_part(R, quick)
     http_part(R, quick)
     fsize_sweep_part(R, quick)
     spool_vanish_part(R, quick)
